@@ -395,6 +395,24 @@ DocLines(name, idx, rs, sepc) ==         \* rs: the results of one document's se
   [j \in 1..Len(ps) |-> name \o "/" \o NatStr(idx) \o ": " \o ps[j]]
 StreamLines(name, docs, T, O, sepc) ==
   LET rss == SearchStream(docs, T, O) IN Flatten([i \in 1..Len(docs) |-> DocLines(name, i - 1, rss[i], sepc)])
+\* Several --search expressions and --except expressions (process_yaml_file): every expression is searched with the
+\* same options; the document's report is the paths of the --search expressions in order, each text once (attributed,
+\* in the "[EXPR]" decorator printed when more than one --search is given, to the first expression that yields it),
+\* minus every text an --except expression yields.  (The usage text says "except results matching this search
+\* expression"; that "matching" is equality of the printed path is the code's reading.)
+\* pss[k] / ess[k]: the printed paths of the k-th --search / --except expression's search of the document
+KeptPaths(pss, ess) ==
+  SelectSeq(DedupAcc(Flatten(pss), <<>>), LAMBDA p : \A k \in 1..Len(ess) : \A j \in 1..Len(ess[k]) : ess[k][j] # p)
+FirstYielding(pss, p) == CHOOSE k \in 1..Len(pss) : (\E j \in 1..Len(pss[k]) : pss[k][j] = p) /\ \A h \in 1..(k - 1) : \A j \in 1..Len(pss[h]) : pss[h][j] # p
+DocReport(name, idx, exprs, pss, ess) ==            \* exprs[k]: the text of the k-th --search expression
+  LET ps == KeptPaths(pss, ess) IN
+  [j \in 1..Len(ps) |-> name \o "/" \o NatStr(idx) \o (IF Len(exprs) > 1 THEN "[" \o exprs[FirstYielding(pss, ps[j])] \o "]" ELSE "") \o ": " \o ps[j]]
+PathsOf(rs, sepc) == [j \in 1..Len(rs) |-> Printed(rs[j].steps, sepc)]
+StreamReport(name, docs, Ts, Xs, O, sepc) ==        \* Ts / Xs: the terms of the --search / --except expressions
+  Flatten([i \in 1..Len(docs) |->
+             DocReport(name, i - 1, [k \in 1..Len(Ts) |-> Expr(Ts[k])],
+                       [k \in 1..Len(Ts) |-> PathsOf(Search(docs[i], Ts[k], O), sepc)],
+                       [k \in 1..Len(Xs) |-> PathsOf(Search(docs[i], Xs[k], O), sepc)])])
 EmptyDocument == <<Node("s", "null", "", 0)>>       \* "---" with nothing after it: no arm of the search applies
 
 (***************************************************************************)
